@@ -133,14 +133,42 @@ class Recorder:
         return {"ip6": f(self.ip6), "nfkc": f(self.nfkc), "resolves": f(self.resolves)}
 
 
+def _depth(v, d=0):
+    if d > 60:
+        return d
+    if isinstance(v, list):
+        return max([_depth(x, d + 1) for x in v] + [d + 1])
+    if isinstance(v, dict):
+        return max([_depth(x, d + 1) for x in v.values()] + [d + 1])
+    return d
+
+
+def _jv(v):
+    """Python value from json.loads -> Gallina HttpTotal.jv"""
+    if v is None:
+        return "HttpTotal.JNull"
+    if v is True or v is False:
+        return f"(HttpTotal.JBool {coq_bool(v)})"
+    if isinstance(v, (int, float)):
+        return f"(HttpTotal.JNum {_s(json.dumps(v))})"
+    if isinstance(v, str):
+        return f"(HttpTotal.JStr {_s(v)})"
+    if isinstance(v, list):
+        return "(HttpTotal.JArr %s)" % coq_list([_jv(x) for x in v], "HttpTotal.jv")
+    return "(HttpTotal.JObj %s)" % coq_list([f"({_s(k)}, {_jv(x)})" for k, x in v.items()], "HttpReqUrl.ustr * HttpTotal.jv")
+
+
 def _json_outcome(body):
+    """what json.loads does with a body (the external the model takes as a table): (outcome, value term, deep)"""
     try:
-        json.loads(bytes(body).decode("utf-8"))
+        v = json.loads(bytes(body).decode("utf-8"), object_pairs_hook=dict)
     except RecursionError:
-        return "rec"
+        return "rec", "HttpTotal.JNull", False
     except ValueError:
-        return "val"
-    return "ok"
+        return "val", "HttpTotal.JNull", False
+    if _depth(v) > 40:
+        return "ok", "HttpTotal.JNull", True
+    return "ok", _jv(v), False
 
 
 # --------------------------------------------------------------------------- running the implementation
@@ -157,23 +185,39 @@ def _run_server(case):
     def app(environ, start_response):
         body = environ["wsgi.input"].read()
         served.setdefault(environ["REMOTE_ADDR"], []).append(
-            [environ["REQUEST_METHOD"], environ["SERVER_PROTOCOL"] == "HTTP/1.0", body.hex()])
+            [environ["REQUEST_METHOD"], environ["SERVER_PROTOCOL"] == "HTTP/1.0", body.hex(), None])
         out = b"ok %d" % len(body)
         start_response("200 OK", [("Content-Type", "text/plain"), ("Content-Length", str(len(out)))])
         return [out]
 
     tymist = tyming.Tymist()
     orig_respond = serving.Steward.respond
+    orig_build = serving.CustomResponder.build
+    dumps_rec = set()
     if case["side"] == "wsgi":
         srv = serving.Server(port=8080, app=app, tymth=tymist.tymen())
     else:
         srv = serving.BareServer(port=8080, tymth=tymist.tymen())
 
+        orig_build = serving.CustomResponder.build
+
+        def build(self, *pa, **kwa):
+            try:
+                return orig_build(self, *pa, **kwa)
+            except RecursionError:
+                dumps_rec.add(getattr(self.steward, "_data_src", ""))
+                raise
+
         def respond(self):
-            served.setdefault(self.remoter.ca, []).append(
-                [self.requestant.method, self.requestant.version == (1, 0), bytes(self.requestant.body).hex()])
-            return orig_respond(self)
+            entry = [self.requestant.method, self.requestant.version == (1, 0), bytes(self.requestant.body).hex(), None]
+            served.setdefault(self.remoter.ca, []).append(entry)
+            if self.requestant.jsoned:      # dictify just (re)assigned .data from this body
+                self._data_src = entry[2]
+            r = orig_respond(self)
+            entry[3] = bytes(self.responder.msg).partition(b"\r\n\r\n")[2].hex()
+            return r
         serving.Steward.respond = respond
+        serving.CustomResponder.build = build
     try:
         ls = FakeListen()
         srv.servant.ss, srv.servant.opened = ls, True
@@ -199,9 +243,10 @@ def _run_server(case):
                 "served": served.get(a.ca, []),
                 "sib_served": len(served.get(b.ca, [])), "sib_closed": b.closed,
                 "sib_responses": bytes(b.sent).count(b"HTTP/1.1 200 OK"),
-                "sent_a": len(a.sent)}
+                "sent_a": len(a.sent), "dumps_rec": sorted(dumps_rec)}
     finally:
         serving.Steward.respond = orig_respond
+        serving.CustomResponder.build = orig_build
         for s in (srv.servant,):
             s.ss = None
 
@@ -246,9 +291,9 @@ def run_impl(case):
     bodies = [bytes.fromhex(x[2]) for x in obs.get("served", [])] + [bytes.fromhex(x[2]) for x in obs.get("responses", [])]
     js = {}
     for b in bodies:
-        o = _json_outcome(b)
-        if o != "ok":
-            js[b.hex()] = o
+        o, term, deep = _json_outcome(b)
+        if o != "ok" or term != "HttpTotal.JNull" or deep:
+            js[b.hex()] = [o, term, deep, b.hex() in obs.get("dumps_rec", [])]
     obs["json"] = sorted(js.items())
     return obs
 
@@ -344,10 +389,13 @@ def to_coq(case, obs):
         sd = f"(HttpTotal.Client {m} {coq_N(case.get('nreq', 1))} {coq_bool(case.get('redirectable', True))} {coq_bool(case.get('dictable', False))})"
     rounds = coq_list(["{| HttpTotal.r_data := %s; HttpTotal.r_eof := %s |}" % (coq_bytes(d), coq_bool(e)) for d, e in _rounds(case)],
                       "HttpTotal.rnd")
-    jm = {"val": "HttpTotal.JValue", "rec": "HttpTotal.JRecursion"}
-    js = coq_list([f"({coq_bytes(bytes.fromhex(h))}, {jm[o]})" for h, o in obs["json"]], "bytes * HttpTotal.jres")
-    served = coq_list([f"({_s(m)}, {coq_bool(v10)}, {coq_bytes(bytes.fromhex(b))})" for m, v10, b in obs.get("served", [])],
-                      "HttpTotal.obs_served")
+    jm = {"val": "HttpTotal.JValue", "rec": "HttpTotal.JRecursion", "ok": "HttpTotal.JOk"}
+    js = coq_list(["(%s, {| HttpTotal.je_res := %s; HttpTotal.je_val := %s; HttpTotal.je_deep := %s; HttpTotal.je_rec := %s |})"
+                   % (coq_bytes(bytes.fromhex(h)), jm[o], term, coq_bool(deep), coq_bool(rec))
+                   for h, (o, term, deep, rec) in obs["json"]], "bytes * HttpTotal.jent")
+    served = coq_list(["(%s, %s, %s, %s)" % (_s(m), coq_bool(v10), coq_bytes(bytes.fromhex(b)),
+                                             "(@None bytes)" if r is None else f"(Some {coq_bytes(bytes.fromhex(r))})")
+                       for m, v10, b, r in obs.get("served", [])], "HttpTotal.obs_served")
     resps = coq_list([f"({coq_N(st)}, {coq_bool(er)}, {coq_bytes(bytes.fromhex(b))}, {coq_N(nr)})" for st, er, b, nr in obs.get("responses", [])],
                      "HttpTotal.obs_resp")
     exc = coq_option(obs["exc"][0] if obs["exc"] else None, ty="exn")
@@ -394,10 +442,33 @@ def _chunked(rng, body, exts=False, trailers=False):
     return out + b"\r\n"
 
 
+JSON_BODIES = [b'{"name":"cut emoji \\ud83d"}', b'"\\udc00\\ud800"', b'{"\\ud800k":[1,"\\udfff"]}', b'"\\u0000 \\ud83d\\ude00 \\uD83D\\uDE00"',
+               b'[NaN, Infinity, -Infinity, 1e999, -0.0, 12345678901234567890123, 1.5e-7]', b'{"a":{"a":{"a":[1,{"b":null,"c":[true,false]}]}}}',
+               b'"\xf0\x9f\x98\x80 \xc3\xa9 \x7f"', b'{"a":1,"a":2,"":""}', b'"\\ud83d', b'{"k":"\\ud83d\\u00e9\\"\\\\\\n\\t\\b\\f\\r/"}', b'[]', b'{}',
+               b'"\xed\xa0\xbd"', b'\xef\xbb\xbf{}', b' \n[1 , 2]\t', b'"\\ud800\\ud800\\udc00"', b'[' * 30 + b'"\\udead"' + b']' * 30]
+
+
+def _json_body(rng):
+    k = rng.random()
+    if k < 0.7:
+        b = rng.choice(JSON_BODIES)
+        if rng.random() < 0.2 and b:
+            i = rng.randrange(len(b))
+            b = b[:i] + bytes([rng.choice(b'\\"ud8{}[],:0 ')]) + b[i + rng.choice([0, 1]):]
+        return b
+    if k < 0.85:
+        d = rng.choice([45, 200, 990, 1200])
+        return b"[" * d + rng.choice([b"", b'"\\ud83d"', b"1"]) + b"]" * d
+    d = rng.choice([3, 50, 995])
+    return b'{"a":' * d + b'"\\udc00"' + b"}" * d
+
+
 def _body(rng):
     k = rng.random()
     if k < 0.3:
         return b""
+    if k < 0.45:
+        return _json_body(rng)
     if k < 0.6:
         return bytes(rng.choice(b"abcxyz012 {}[]\":,") for _ in range(rng.randint(1, 40)))
     if k < 0.75:
@@ -429,7 +500,7 @@ def _request(rng, persist=True):
         if body or rng.random() < 0.3:
             hs.append(b"Content-Length: %d" % len(body))
         payload = body
-    if body and rng.random() < 0.4:
+    if body and rng.random() < (0.85 if body[:1] in b'[{"' else 0.4):
         hs.append(rng.choice([b"Content-Type: application/json", b"Content-Type: application/JSON; charset=utf-8", b"Content-Type: text/plain"]))
     if ver == b"HTTP/1.0":
         if persist:
@@ -759,6 +830,7 @@ def generate(rng, tier):
 def directed():
     H = b"Host: x\r\n"
     G = lambda side, s, **kw: _mk(side, s, kw.pop("cuts", None), eof=kw.pop("eof", False), settle=kw.pop("settle", 4), **kw)
+    J = lambda body: b"POST /j HTTP/1.1\r\nContent-Type: application/json\r\nContent-Length: %d\r\n\r\n" % len(body) + body
     out = []
     for side in ("wsgi", "bare"):
         out += [
@@ -782,6 +854,12 @@ def directed():
             G(side, b"\r\nGET / HTTP/1.1\r\n\r\n", edits=["flip"], expect="reject"),
             G(side, b"POST / HTTP/1.1\r\nContent-Length: 2\r\n\r\n\xff\xfe", edits=["flip"], expect="serve"),          # D19 body decode
             G(side, b"POST / HTTP/1.1\r\nContent-Type: application/json\r\nContent-Length: 3000\r\n\r\n" + b"[" * 3000, edits=["deepjson"], expect="serve"),
+            G(side, J(b'{"name":"cut emoji \\ud83d"}'), edits=["json"], expect="serve"),          # lone surrogate escape reaches the echo reply
+            G(side, J(b'"\\udc00\\ud800 \\u0000 \\ud83d\\ude00"'), edits=["json"], expect="serve"),
+            G(side, J(b'{"\\ud800k":[1,"\\udfff",{"x":null}],"n":[NaN,1e999,-0.0,12345678901234567890123]}'), edits=["json"], expect="serve"),
+            G(side, J(b'"\xf0\x9f\x98\x80 \xc3\xa9 \x7f"') + b"GET /2?a=1&b=%C3%A9;c HTTP/1.1\r\nX-A: \xe9\r\n\r\n", edits=["json"], expect="serve", nvalid=2),  # data carried over
+            G(side, J(b"[" * 1497 + b"]" * 1497), edits=["deepjson"], expect="serve"),               # parses, reply one level deeper
+            G(side, J(b"[" * 990 + b'"\\udead"' + b"]" * 990), edits=["deepjson"], expect="serve"),
             G(side, b"POST / HTTP/1.1\r\nContent-Length: abc\r\n\r\n", edits=["clen"], expect="reject"),
             G(side, b"POST / HTTP/1.1\r\nContent-Length: 1_0\r\n\r\n0123456789", edits=["clen"], expect="serve"),
             G(side, b"POST / HTTP/1.1\r\nContent-Length: -1\r\n\r\n", edits=["clen"], expect="reject"),
@@ -958,9 +1036,22 @@ def extra(tier, ctx):
         ctx.violations.append({"kind": "stdlib-model", "why": "Gallina model of a stdlib function disagrees with CPython", "case": terms[i], "no_input": True})
     if errors:
         ctx.violations.append({"kind": "stdlib-model", "why": "sweep did not evaluate: " + errors[0][:500], "case": None, "no_input": True})
+    # recursion boundary: a body that json.loads still accepts while json.dumps of the reply (one level deeper) does not
+    scan = range(1470, 1530) if tier == "quick" else range(1300, 1700)
+    nscan = 0
+    for d in scan:
+        for body in ((b"[" * d + b"]" * d,) if tier == "quick" else (b"[" * d + b"]" * d, b'{"a":' * d + b"1" + b"}" * d)):
+            c = _mk("bare", b"POST /j HTTP/1.1\r\nContent-Type: application/json\r\nContent-Length: %d\r\n\r\n" % len(body) + body,
+                    None, settle=2, edits=["deepjson"])
+            o = run_impl(c)
+            why = oracle(c, o)
+            nscan += 1
+            if why:
+                ctx.violations.append({"kind": "oracle", "why": f"nesting depth {d}: {why}", "case": c})
+                break
     # NFKC assumption used by the server model for latin-1 netlocs
     import unicodedata
     bad = [c for c in range(128, 256) if any(x in unicodedata.normalize("NFKC", chr(c)) for x in "/?#@:")]
     if bad:
         ctx.violations.append({"kind": "stdlib-model", "why": f"latin-1 characters whose NFKC form contains a delimiter: {bad}", "case": None, "no_input": True})
-    return {"stdlib_sweeps": {"int": n_int, "urlsplit_port_hostname": n_url, "unquote": n_unq, "disagreements": len(failing)}}
+    return {"recursion_boundary_scan": nscan, "stdlib_sweeps": {"int": n_int, "urlsplit_port_hostname": n_url, "unquote": n_unq, "disagreements": len(failing)}}
